@@ -2,7 +2,7 @@
    Property theorems only; proofs are in proofs/EnvFacts.v. *)
 From Coq Require Import Ascii String List.
 Import ListNotations.
-Require Import Laze.model.Base Laze.model.Env Laze.proofs.EnvFacts.
+Require Import Laze.model.Base Laze.model.Env Laze.model.Allow Laze.model.Ctx Laze.proofs.EnvFacts Laze.proofs.FinalizeFacts.
 Open Scope list_scope.
 
 (* the rendering loop of the code equals: start, then prefix+value+suffix of every non-empty
@@ -80,3 +80,20 @@ Example C14_ex_from :
                     [(S_ "libs", EList [S_ "m"; S_ "c"])]
   = Ok [(S_ "libs", S_ "m c"); (S_ "LIBS", S_ "-lm -lc")].
 Proof. vm_compute. reflexivity. Qed.
+
+(* options set on a context apply to its descendants unless they define their own: after
+   ContextBag::finalize a context that declares var_options keeps them, one that declares none has
+   the FINAL var_options of its parent *)
+Theorem C14_inherited : forall b0 bf, finalize b0 = Ok bf ->
+  let b1 := if mem_str (S_ "default") (bag_names b0) then b0 else b0 ++ [context_default] in
+  forall j c, bag_get bf j = Some c ->
+    exists c1, bag_get b1 j = Some c1 /\
+      c_var_options c =
+      match c_var_options c1 with
+      | Some own => Some own
+      | None => match c_parent_index c with
+                | Some p => match bag_get bf p with Some pc => c_var_options pc | None => None end
+                | None => None end
+      end.
+Proof. exact finalize_var_options_inherited. Qed.
+Print Assumptions C14_inherited.
